@@ -35,6 +35,11 @@ CLAIMS = {
         technique="Lean 4 proofs about an executable model of the expression language (character-level parser driven by the operator table regenerated from the source in registration order, interpreter over Rat, C emitter producing the same strings as toC(), reader/evaluator for the emitted C subset): emitter soundness against the interpreter for every well-formed tree, absence of integer-typed divisions in emitted text, totality of the parser, usual precedence/associativity with redundant parentheses, documented meaning of every operator and function; correspondence of parse trees, types, every emitted C string, interpreter values and gcc-compiled values with the real code; independent reference evaluator as oracle",
         text="C03_emit_sound(_parsed): for every well-formed tree, component and environment the value of the emitted C text equals the interpreter's value; C03_emit_no_int_division / never_int_error: compiled code cannot silently truncate; C03_total: every string is parsed to a tree or rejected with an error (no hang, no crash); C03_parse_render(_value): usual precedence, left-associative - and /, unary minus, any redundant parentheses; C03_denote_meaning_*: the interpreter computes the documented meaning of each operator and function. On every generated expression the real parser, emitter (textually), interpreter and gcc-compiled code agree with the model and with an independent reference evaluator. PARTIAL: variable names containing operator or function names are excluded from the parse theorem (decidable predicate; malformed stream only).",
         note=BASE_NOTE + "parseC/evalC is the specification of gcc's reading of the emitted text (trusted, validated against gcc on every emitted text). libm functions are oracles. Rounding of double operations is outside (exact regime; rounded cases are counted separately)."),
+    "C13": dict(
+        level="proof", design="DESIGN.md section 3, C13",
+        technique="Lean 4 proofs (core Rat) over the configuration model of C01: periodicity of the minimum image, invariance of the reference pair list under a common displacement with arbitrary wraps, and equality up to order and orientation of the linked-cell pair lists of shifted or reordered configurations (via C01_exact); tie through the regenerated addPair/cellDist kernels (bridge theorems) and relabel runs of the real binary compared by physical identity (pair lists in canonical orientation and all particle data, bit for bit)",
+        text="C13_mi_periodic / C13_sepV_shift: minimum-image separations are unchanged by a common shift followed by any wrap into the box (faces, edges, corners, several box lengths); C13_shift_brute: the reference pair list is literally the same; C13_shift / C13_perm: the pair list delivered to forces and pair symbols by the cell search for the shifted (re-registered) or reordered particle system equals the original up to order and orientation, with the same vector per physical pair. On the real binary the permuted and shifted runs reproduce pair lists, forces and derived quantities of every physical particle bit for bit inside the exact horizon.",
+        note=BASE_NOTE + "Statements are at the level of the pair list; forces and pair sums being order-independent sums over that list is the exact-arithmetic regime plus C04/C07. Shift invariance only for expressions not reading absolute positions, fully periodic boxes."),
     "C04": dict(
         level="proof", design="DESIGN.md section 3, C04",
         technique="Lean 4 proofs about the shared one-step model Sympler/Dyn.lean (pair kernel with acts-on guards, own cutoff, symmetry factor): reciprocity, free-only, own cutoff, momentum invariance for every step count; correspondence of both force buffers of every particle with the real binary after every step in the exact-arithmetic regime; momentum oracle on the real runs",
@@ -125,7 +130,7 @@ def main():
             "level_note": c["note"],
             "technique": c["technique"],
         })
-    na = [{"property_id": p, "reason": "check not built yet (construction in progress; DESIGN.md section 6 gives the order)"} for p in IDS if p not in CLAIMS]
+    na = [{"property_id": p, "reason": "no check built for this property"} for p in IDS if p not in CLAIMS]
     man = {
         "version": 1,
         "setup_cmd": "./setup.sh",
